@@ -25,9 +25,9 @@ def to_rows(vals):
 
 def run(ctx):
     stride = 3 if ctx.quick else 1
-    zones = '{1, 2, 3, 32}' if ctx.quick else '1..60'
+    zones = '{1, 2, 3, 32}' if ctx.quick else '{%s}' % ', '.join(str(z) for z in range(1, 61))   # a .cfg has no '..'
     base = ('INIT Init\nNEXT Next\nCONSTANTS Stride = %d Part = "%s" NChunks = 64 Zones = %s\n'
-            'INVARIANTS FwdInv RevInv Emit\nCHECK_DEADLOCK FALSE\n')
+            'INVARIANTS FwdInv RevInv DecInv MflInv Emit\nCHECK_DEADLOCK FALSE\n')
     parts = [(p, base % (stride, p, zones)) for p in ('mf', 'mr')]
     nrec = 30000 if ctx.quick else 600000
     vlib.lattice_pipeline(ctx, 'MC_MGRS', parts, to_rows, 'drv_mgrs', ['replay'], ['record', ctx.seed, nrec],
@@ -39,7 +39,10 @@ def run(ctx):
 RULE = ('vectors enumerated by TLC from MC_MGRS: UTM/UPS coordinates on every 100 km tile boundary and interior offsets at -1/0/+1 ulp '
         '(incl. closed upper edges, equator folding), precisions -1..11; every zone x band x column x row letter triple for the model '
         'zones (all 60 in the thorough tier), all UPS triples, grid-zone-only strings for zones 0..62, digit tails and malformed strings; '
-        'plus seeded random round trips. distinct_nontrivial = distinct lattice vectors.')
+        'every string also through the six-argument Reverse (default centerp) and MGRS::Decode; the overload with a supplied latitude '
+        'on every column x row with latitudes on / next to band edges and at band centres (consistent and inconsistent), NaN easting / '
+        'northing through both overloads; plus seeded random round trips and supplied-latitude records. '
+        'distinct_nontrivial = distinct lattice vectors.')
 TRUSTED = ['TLC', 'MGRS.tla', 'UTMUPS::Reverse (corner latitudes of the grid)', 'drv_mgrs.cpp quantisation']
 
 
